@@ -3,6 +3,8 @@ package harness
 import (
 	"context"
 	"fmt"
+	"runtime"
+	"strings"
 	"sync"
 	"testing"
 	"time"
@@ -52,9 +54,20 @@ func hammer(t *testing.T, name string, dur time.Duration, fns ...func(i int)) in
 	}
 	time.Sleep(dur)
 	close(stop)
-	wg.Wait()
+	done := make(chan struct{})
+	go func() { wg.Wait(); close(done) }()
+	select {
+	case <-done:
+	case <-time.After(30 * time.Second):
+		// a call never returned (e.g. a method that locks a copy of an already locked mutex): keep the stacks, give up on the scenario
+		buf := make([]byte, 1<<20)
+		hammerStuck = string(buf[:runtime.Stack(buf, true)])
+		return -1
+	}
 	return int(calls)
 }
+
+var hammerStuck string
 
 func TestC17(t *testing.T) {
 	rep := NewReport("C17")
@@ -62,8 +75,24 @@ func TestC17(t *testing.T) {
 	d := time.Duration(Scale(250, 3000)) * time.Millisecond
 	s := func(x interface{}) { _ = fmt.Sprint(x) }
 	cb := func(int) {}
+	stuck := false
 	run := func(name string, fns ...func(int)) {
+		if stuck {
+			return
+		}
 		n := hammer(t, name, d, fns...)
+		if n < 0 {
+			stuck = true
+			st := hammerStuck
+			if i := strings.Index(st, "go-concurrency-limits/"); i > 600 {
+				st = st[i-600:]
+			}
+			if len(st) > 3000 {
+				st = st[:3000]
+			}
+			rep.Violate("c17:call-never-returns:"+name, fmt.Sprintf("scenario %s: 30 s after the goroutines were told to stop, a call on the shared instance has not returned", name), map[string]interface{}{"component": "race-stress", "scenario": name, "stacks": st})
+			return
+		}
 		rep.Evaluations += n
 		rep.Distinct("scenario", name)
 		rep.CountN(name+".calls", n)
